@@ -89,7 +89,8 @@ theorem c01_complete (R : Int → Bool) (cfg : Cfg α) (pre post : List (Nat × 
   simp [final, classify]
 
 /-- (c) exactly one request is written, first; the only other write there can ever be is one
-cancelled notification.  A call cancelled before sending writes no request at all. -/
+cancelled notification (whatever the state of the write stream).  A call cancelled before sending
+writes no request at all. -/
 theorem c01_single_request_written (R : Int → Bool) (cfg : Cfg α) (ev : List (Nat × In α)) :
     (cfg.preCancelled = false →
       (run R cfg ev).writes = [Write.request] ∨ (run R cfg ev).writes = [Write.request, Write.cancelNotif])
@@ -98,7 +99,7 @@ theorem c01_single_request_written (R : Int → Bool) (cfg : Cfg α) (ev : List 
   · intro hpre
     have hrun : run R cfg ev = loop R cfg 0 ev [.request] [] 0 := by simp [run, hpre]
     rw [hrun, loop_writes]
-    cases (loop R cfg 0 ev [Write.request] [] 0).outcome <;> simp
+    cases (loop R cfg 0 ev [Write.request] [] 0).outcome <;> cases cfg.writer <;> simp
   · intro hpre; simp [run, hpre]
 
 /-- id equality is JSON-type sensitive: the integer 7 is not the string "7" -/
